@@ -267,6 +267,15 @@ struct BDoc<'a> {
     b: Vec<&'a str>,
 }
 
+/// `Cow` may own, so it must succeed exactly when the owned target does, with the same text.
+#[derive(Debug, Deserialize)]
+struct CDoc<'a> {
+    #[serde(borrow)]
+    a: std::borrow::Cow<'a, str>,
+    #[serde(borrow)]
+    b: Vec<std::borrow::Cow<'a, str>>,
+}
+
 #[derive(Debug, Deserialize)]
 struct ODoc {
     a: String,
@@ -299,6 +308,29 @@ pub fn exec_borrow(c: &BorrowCase, st: &mut Stats) -> Vec<Viol> {
         }
     };
     st.note(&format!("{:?}|{:?}", owned.as_ref().map_err(|e| lab::err_info(e)), borrowed.as_ref().map_err(|e| lab::err_info(e))));
+    // Cow<str>: the same answer as String, whichever way the library chooses to hand the text over
+    if let Ok(cow) = guard(|| serde_saphyr::from_str::<CDoc>(text)) {
+        st.evals += 1;
+        let same = match (&owned, &cow) {
+            (Ok(o), Ok(c2)) => o.a == c2.a && o.b.len() == c2.b.len() && o.b.iter().zip(c2.b.iter()).all(|(x, y)| x == y),
+            (Err(e1), Err(e2)) => {
+                let (i1, i2) = (lab::err_info(e1), lab::err_info(e2));
+                i1.kind == i2.kind && i1.line == i2.line && i1.col == i2.col
+            }
+            _ => false,
+        };
+        st.bump("borrow.cow_compared");
+        if !same {
+            out.push(mk(
+                "cow-differs-from-owned",
+                format!(
+                    "String target gives {:?} but Cow<str> target gives {:?}",
+                    owned.as_ref().map_err(|e| lab::err_info(e).kind),
+                    cow.as_ref().map_err(|e| lab::err_info(e).kind)
+                ),
+            ));
+        }
+    }
     match (&owned, &borrowed) {
         (Ok(o), Ok(b)) => {
             st.bump("borrow.lent");
@@ -449,6 +481,9 @@ fn gen_borrow(rng: &mut Rng) -> BorrowCase {
     let mut worst = 0u8;
     let (a, ca) = if rng.chance(1, 8) {
         ("|\n  block text\n".to_string(), 2)
+    } else if rng.chance(1, 8) {
+        // block scalars whose content is empty (after chomping): still strings, never null
+        ((*rng.pick(&["|-\n", ">-\n", "|-\n\n", "|\n", ">\n", "|+\n", "|-\n  \n", ">-\n\n\n"])).to_string(), 2)
     } else if rng.chance(1, 10) {
         (">\n  folded text\n  more\n".to_string(), 2)
     } else {
@@ -576,7 +611,10 @@ pub fn gen_case(plan: &Plan, tier: Tier, seed: u64, idx: u64) -> Case {
         }
     };
     let target = if text.len() > 4000 { Target::Json } else { target };
-    let opts = if rng.chance(1, 2) { OptVec::default() } else { OptVec::random(&mut rng) };
+    let mut opts = if rng.chance(1, 2) { OptVec::default() } else { OptVec::random(&mut rng) };
+    if rng.chance(1, 4) {
+        opts.tighten(&mut rng);
+    }
     let n_random = if text.len() > 4000 { 2 } else { 4 };
     let scheds = schedules_for(text.as_bytes(), &mut rng, n_random);
     Case::C09(AgreeCase {
